@@ -1,11 +1,11 @@
 SPECIFICATION GSpecT
 CONSTANTS
-  PRICE = {1, 2, 3}
+  PRICE = {1, 2}
   AMOUNT = {0, 1, 2}
   SEQS = {7}
-  MaxLong = 2
+  MaxLong = 3
   MaxShort = 0
-  MaxSnap = 1
+  MaxSnap = 2
   StableUpTo = 20
   MaxLen = 1
   Large = 99
